@@ -1,6 +1,120 @@
-(* Proofs about the parameter-list model. *)
+(* Proofs about the parameter-list model: primitives, parameter framing, iterator,
+   generic table round trip, unknown parameters. *)
 From DustDDS Require Import Base.Machine Disc.PlModel.
+From Coq Require Import Lia ZArith List Bool.
+Import ListNotations.
 Open Scope Z_scope.
+Ltac Zify.zify_post_hook ::= Z.div_mod_to_equations.
 
+(* ------------------------------------------------------------------ lists and lengths *)
 Lemma blen_nonneg : forall l, 0 <= blen l.
 Proof. intros; unfold blen; lia. Qed.
+Lemma blen_nil : blen [] = 0. Proof. reflexivity. Qed.
+Lemma blen_cons : forall b l, blen (b :: l) = 1 + blen l.
+Proof. intros; unfold blen; cbn [length]; lia. Qed.
+Lemma blen_app : forall a b, blen (a ++ b) = blen a + blen b.
+Proof. intros; unfold blen; rewrite app_length; lia. Qed.
+Lemma blen_zeros : forall n, 0 <= n -> blen (zeros n) = n.
+Proof. intros; unfold blen, zeros; rewrite repeat_length; lia. Qed.
+Lemma zeros_0 : zeros 0 = [].
+Proof. reflexivity. Qed.
+Lemma blen_0_nil : forall l, blen l = 0 -> l = [].
+Proof. intros [|x l] H; [reflexivity|]. rewrite blen_cons in H. pose proof (blen_nonneg l). lia. Qed.
+
+Lemma take_app_exact : forall a b, take (blen a) (a ++ b) = a.
+Proof.
+  intros; unfold take, blen. rewrite Nat2Z.id.
+  rewrite firstn_app, Nat.sub_diag, firstn_all; cbn [firstn]; apply app_nil_r.
+Qed.
+Lemma drop_app_exact : forall a b, drop (blen a) (a ++ b) = b.
+Proof.
+  intros; unfold drop, blen. rewrite Nat2Z.id.
+  rewrite skipn_app, Nat.sub_diag, skipn_all; reflexivity.
+Qed.
+Lemma take_app_n : forall n a b, blen a = n -> take n (a ++ b) = a.
+Proof. intros; subst; apply take_app_exact. Qed.
+Lemma drop_app_n : forall n a b, blen a = n -> drop n (a ++ b) = b.
+Proof. intros; subst; apply drop_app_exact. Qed.
+Lemma take_0 : forall l, take 0 l = [].
+Proof. reflexivity. Qed.
+Lemma drop_0 : forall l, drop 0 l = l.
+Proof. reflexivity. Qed.
+
+Lemma shorter_spec : forall l n, shorter l n = (blen l <? n).
+Proof.
+  induction l as [|x l IH]; intros n; cbn [shorter].
+  - reflexivity.
+  - rewrite blen_cons. destruct (n <=? 0) eqn:E.
+    + symmetry. apply Z.ltb_ge. pose proof (blen_nonneg l). lia.
+    + rewrite IH. destruct (blen l <? n - 1) eqn:F; symmetry.
+      * apply Z.ltb_lt. lia.
+      * apply Z.ltb_ge. lia.
+Qed.
+Lemma shorter_app_false : forall a b n, blen a = n -> shorter (a ++ b) n = false.
+Proof. intros. rewrite shorter_spec, blen_app. apply Z.ltb_ge. pose proof (blen_nonneg b). lia. Qed.
+
+(* ------------------------------------------------------------------ integers <-> bytes *)
+Lemma blen_le_bytes : forall n v, blen (le_bytes n v) = Z.of_nat n.
+Proof. induction n; intros; cbn [le_bytes]; [reflexivity|]. rewrite blen_cons, IHn. lia. Qed.
+
+Lemma le_val_le_bytes : forall n v, le_val (le_bytes n v) = v mod 256 ^ Z.of_nat n.
+Proof.
+  induction n; intros v.
+  - cbn. rewrite Z.mod_1_r. reflexivity.
+  - cbn [le_bytes le_val]. rewrite IHn.
+    replace (Z.of_nat (S n)) with (1 + Z.of_nat n) by lia.
+    rewrite Z.pow_add_r by lia. change (256 ^ 1) with 256.
+    rewrite Z.rem_mul_r by (try lia; apply Z.pow_pos_nonneg; lia). lia.
+Qed.
+Lemma le_val_le_bytes_small : forall n v, 0 <= v < 256 ^ Z.of_nat n -> le_val (le_bytes n v) = v.
+Proof. intros. rewrite le_val_le_bytes. apply Z.mod_small; assumption. Qed.
+
+Lemma bytes_ok_le_bytes : forall n v, bytes_ok (le_bytes n v).
+Proof.
+  induction n; intros; cbn [le_bytes]; constructor; [|apply IHn].
+  unfold byte_ok. pose proof (Z.mod_pos_bound v 256). lia.
+Qed.
+
+(* ------------------------------------------------------------------ reader / writer pairing
+   (w, r) round-trips a: reading what w wrote at the same position returns a, consumes
+   exactly those bytes and leaves the rest. *)
+Definition wr_rd {A} (w : wr) (r : rdr A) (a : A) : Prop :=
+  forall pos rest, r (pos, w pos ++ rest) = Ok (a, (pos + blen (w pos), rest)).
+
+Lemma wr_rd_bind : forall {A B} (w1 w2 : wr) (r1 : rdr A) (k : A -> rdr B) a b,
+  wr_rd w1 r1 a -> wr_rd w2 (k a) b -> wr_rd (w1 +++ w2) (rbind r1 k) b.
+Proof.
+  intros A B w1 w2 r1 k a b H1 H2 pos rest. unfold wseq, rbind.
+  rewrite <- app_assoc, H1. rewrite H2. rewrite blen_app. f_equal. f_equal. f_equal. lia.
+Qed.
+Lemma wr_rd_ret : forall {A} (a : A), wr_rd (w_raw []) (rret a) a.
+Proof. intros A a pos rest. unfold w_raw, rret. cbn [app]. rewrite blen_nil. f_equal. f_equal. f_equal. lia. Qed.
+(* a reader that ends with a pure post-processing step *)
+Lemma wr_rd_map : forall {A B} (w : wr) (r : rdr A) (f : A -> B) a,
+  wr_rd w r a -> wr_rd w (x <~ r ;; rret (f x)) (f a).
+Proof. intros A B w r f a H pos rest. unfold rbind, rret. rewrite H. reflexivity. Qed.
+
+Lemma wr_rd_bytes : forall ned n b, blen b = n -> wr_rd (w_raw b) (r_bytes ned n) b.
+Proof.
+  intros ned n b Hn pos rest. unfold w_raw, r_bytes.
+  rewrite (shorter_app_false b rest n Hn), (take_app_n n b rest Hn), (drop_app_n n b rest Hn), Hn. reflexivity.
+Qed.
+Lemma wr_rd_u8 : forall ned v, wr_rd (w_u8 v) (r_u8 ned) v.
+Proof. intros ned v pos rest. unfold w_u8, w_raw, r_u8. cbn [app]. reflexivity. Qed.
+Lemma wr_rd_pad : forall ned a, 0 < a -> wr_rd (w_pad a) (r_align ned a) tt.
+Proof.
+  intros ned a Ha pos rest. unfold w_pad, r_align.
+  assert (Hk : 0 <= (- pos) mod a) by (apply Z.mod_pos_bound; lia).
+  rewrite (shorter_app_false (zeros ((- pos) mod a)) rest ((- pos) mod a)) by (apply blen_zeros; assumption).
+  rewrite (drop_app_n _ _ rest (blen_zeros _ Hk)), (blen_zeros _ Hk). reflexivity.
+Qed.
+Lemma wr_rd_uint : forall ned (n : nat) v, (0 < n)%nat -> 0 <= v < 256 ^ Z.of_nat n ->
+  wr_rd (w_pad (Z.of_nat n) +++ w_raw (le_bytes n v)) (r_uint ned false (Z.of_nat n)) v.
+Proof.
+  intros ned n v Hn Hv. unfold r_uint.
+  eapply wr_rd_bind; [apply wr_rd_pad; lia|].
+  replace (w_raw (le_bytes n v)) with (w_raw (le_bytes n v) +++ w_raw []).
+  2:{ unfold wseq, w_raw. apply FunctionalExtensionality.functional_extensionality. intros. apply app_nil_r. }
+  eapply wr_rd_bind; [apply wr_rd_bytes, blen_le_bytes|].
+  unfold int_val. rewrite (le_val_le_bytes_small n v Hv). apply wr_rd_ret.
+Qed.
